@@ -66,6 +66,7 @@ def run(tier):
     rep.rule('R13.2', 'no unsigned wrap-around on the data path r -> Ni', floor=1)
     rep.rule('R13.3', 'count stays within [ALPHA, NMAX] (inductive: constructors store ALPHA, update keeps the range)', floor=3)
     rep.rule('R13.4', 'band_choose_hello_time: interval = ceil(TXC*Ni*20/(3*GAMMA)) exactly (both bounds), never below the frame-time floor', floor=2)
+    rep.rule('R13.6', 'tick: whenever a block ends (statistics updated) the next Hello is re-scheduled from the updated count: deadline - now >= ceil(80*Ni_new/30)', floor=2)
     rep.rule('R13.5', 'who-may-write Ni: only the constructor, band_init_stats and band_update_stats', floor=3)
 
     r = ('sym', 'r', 0, (1 << 32) - 1)
@@ -167,7 +168,7 @@ def run(tier):
     now = ('sym', 'clock.ms.0', 1, 1 << 63)
     for s2, v in o3:
         o = s2.objs['in:band']
-        ts = s2.canon(mem.load_scalar(s2, o, C(off('hello_timeout_ts')), ix.parse_type('unsigned long')))
+        ts = s2.canon(mem.load_scalar(s2, o, C(off('hello_timeout_ts')), ix.parse_type('unsigned long long')))
         interval = I3.simp(('sub', ts, now))
         lower = s2.prove_le(('mul', C(num), ni0), ('mul', C(den), interval))
         upper = s2.prove_le(('mul', C(den), interval), ('add', ('mul', C(num), ni0), C(den - 1)))
@@ -180,6 +181,8 @@ def run(tier):
         rv = s2.canon(v.t)
         rep.check(rv == ts, 'R13.4', 'choose|return', 'returned deadline %s differs from the stored one %s' % (short(rv), short(ts)),
                   node=cnode, function='band_choose_hello_time')
+
+    tick_reschedule(rep, prog, ix, brec, B)
 
     # ---- who may write Ni (all parsed units of this configuration)
     writers = set()
@@ -213,3 +216,76 @@ def candidates(st, r, beta):
         t = ('mul', r, t) if repr(r) <= repr(t) else ('mul', t, r)
     out.append(t)
     return out
+
+
+def tick_reschedule(rep, prog, ix, brec, B):
+    """automata_tick, RepeatBand in Pausing, block timeout due: after the tick the Hello deadline must respect the count
+    the tick has just computed (whatever else happened in the same tick, e.g. a Hello having been sent)."""
+    from .automata_common import Automaton
+    fnf = 'lltdResponder/lltdAutomata.c'
+    Eu = Automaton(prog, 'init_automata_enumeration', 'switch_state_enumeration')
+    trec = ix.parse_type('session_table').rec
+    prec_ = ix.parse_type('lltd_automata_tick_port').rec
+    from ..facts import WORD as W
+    NOW = ('sym', 'clock.ms.0', 1, 1 << 63)
+    R = ('sym', 'band.r', 0, (1 << 32) - 1)
+    NI = ('sym', 'band.Ni@entry', B['ALPHA'], B['NMAX'])
+    BG = ('sym', 'band.begun', 0, 1)
+    HT = ('sym', 'band.hello_timeout_ts@entry', 0, 1 << 62)
+    BT = ('sym', 'band.block_timeout_ts@entry', 1, 1 << 62)
+    LTX = ('sym', 'last_hello_tx_ms@entry', 0, 1 << 62)
+    st = Eu.state0.fork()
+    st.trace, st.tags = (), {}
+    st.tags['clkfloor.ms'] = (LTX, BT)          # the block deadline has passed: BT <= now
+    e = st.objs[Eu.oid]
+    e.cells[((), Eu.field_off('current_state'))] = (1, C(1))
+    bext = st.canon(mem.load_scalar(st, e, C(Eu.field_off('extra')), ix.parse_type('void *')))
+    band = st.objs[bext[1]]
+    band.cells.clear()
+    band.default = 'sym'
+    off = lambda n: brec.field(n)[1]
+    band.cells[((), off('Ni'))] = (4, NI)
+    band.cells[((), off('r'))] = (4, R)
+    band.cells[((), off('begun'))] = (1, BG)
+    band.cells[((), off('hello_timeout_ts'))] = (8, HT)
+    band.cells[((), off('block_timeout_ts'))] = (8, BT)
+    t = mk_obj(st, 'in:sessions', trec.size, kind='heap', default='zero', heap=True)
+    t.zeroed_n = t.size
+    t.cells[((), trec.field('count')[1])] = (1, C(1))           # one session, not complete: the enumerator keeps running
+    t.cells[((), trec.field('all_complete')[1])] = (1, ZERO)
+    po = mk_obj(st, 'in:tickport', prec_.size, kind='heap', default='sym')
+    lt = mk_obj(st, 'in:last_tx', 8, kind='heap', default='sym')
+    lt.cells[((), 0)] = (8, LTX)
+    mk_obj(st, 'ext:netif', 1, kind='ext', default='unknown')
+    po.cells[((), prec_.field('network_interface')[1])] = (W, ('ptr', 'ext:netif', ZERO))
+    po.cells[((), prec_.field('last_hello_tx_ms')[1])] = (W, ('ptr', 'in:last_tx', ZERO))
+    po.cells[((), prec_.field('send_hello')[1])] = (W, ('fn', 'send_hello'))
+
+    def setup(I, st2):
+        ap = ix.parse_type('automata *')
+        return [Val(ap, ZERO), Val(ap, Eu.ret.t), Val(ix.parse_type('session_table *'), ('ptr', 'in:sessions', ZERO)),
+                Val(ix.parse_type('const lltd_automata_tick_port *'), ('ptr', 'in:tickport', ZERO))]
+
+    def upd(I, s2, args, node, rty):
+        return [(s2, Val(rty, ZERO))]
+    E = Engine(prog, port=PortModel(), summaries={'session_table_update_complete_status': upd})
+    I, outs = run_entry(prog, AUTOMATA_UNIT, 'automata_tick', setup, engine=E, state=st, tracked=(R, BG, LTX), name='automata_tick[block end]')
+    collect_failures(rep, I, 'R13.ub')
+    num, den = B['TXC'] * 20, 3 * B['GAMMA']
+    nupd = 0
+    for s2, v in outs:
+        b2 = s2.objs[bext[1]]
+        bt2 = s2.canon(mem.load_scalar(s2, b2, C(off('block_timeout_ts')), ix.parse_type('unsigned long long')))
+        if bt2 == s2.canon(BT):
+            continue                      # no block ended on this path
+        nupd += 1
+        ni2 = s2.canon(mem.load_scalar(s2, b2, C(off('Ni')), ix.parse_type('unsigned int')))
+        hts = s2.canon(mem.load_scalar(s2, b2, C(off('hello_timeout_ts')), ix.parse_type('unsigned long long')))
+        sent = any(x[0] == 'indirect' for x in s2.trace)
+        ok = s2.prove_le(('mul', C(num), ni2), ('mul', C(den), ('sub', hts, NOW)))
+        rep.check(ok, 'R13.6', 'tick|reschedule|%s' % ('after-send' if sent else 'no-send'),
+                  'a block ends in this tick%s and the count becomes %s, but the next Hello stays scheduled at %s: sooner than the load formula ceil(%d*Ni/%d) for the new count allows'
+                  % (' (a Hello was also sent in it)' if sent else '', short(ni2), short(hts), num, den), function='automata_tick', file=fnf,
+                  sample={'block_end': True, 'hello_sent_same_tick': sent, 'Ni_after': short(ni2)})
+    if nupd == 0:
+        rep.fail('R13.6', 'tick|no-block-end', 'no path of the tick ends an enumeration block', function='automata_tick', file=fnf)
